@@ -64,6 +64,7 @@ pub fn hex(b: &[u8]) -> String {
     s
 }
 
+#[cfg(feature = "alloc")]
 pub fn parse_data_text(e: &tz::error::parse::ParseDataError) -> &'static str {
     use tz::error::parse::ParseDataError::*;
     match e {
